@@ -549,6 +549,10 @@ fn plan_base(prop: &str) -> Vec<Item> {
                 v.push(it("pipe_in_items", &format!("pool=1,n={},pat=1,conc=0,late=1", n), Some(2), 3));
             }
             v.push(it("pipe_in_items", "pool=1,n=2,pat=0,conc=1,late=1", Some(1), 2));
+            // inputs that yield cooperatively (wake themselves from inside poll_next)
+            v.push(it("pipe_in_items", "pool=1,n=2,pat=1,conc=1,sinpoll=2", Some(1), 2));
+            v.push(it("pipe_in_items", "pool=1,n=1,pat=1,conc=0,fin=1,sinpoll=1", Some(2), 3));
+            v.push(it("pipe_in_items", "pool=0,n=1,pat=0,conc=1,sinpoll=1", Some(2), 3));
             // the input wakes its own waker from inside poll_next, after the last owner of the Desync has gone
             v.push(it("pipe_in_items", "pool=1,n=1,pat=9,conc=0,dropmid=1,inpoll=1", Some(2), 3));
             v.push(it("pipe_in_items", "pool=2,n=1,pat=9,conc=0,dropmid=1,inpoll=2", Some(1), 2));
@@ -586,6 +590,9 @@ fn plan_base(prop: &str) -> Vec<Item> {
             }
             v.push(it("pipe_partial", "pool=1,d=5,r=2", Some(1), 2));
             v.push(it("pipe_partial", "pool=2,d=3,r=1", Some(1), 2));
+            v.push(it("pipe_out", "pool=1,n=2,d=1,pat=1,sinpoll=2", Some(1), 2));
+            v.push(it("pipe_out", "pool=1,n=1,d=2,pat=0,sinpoll=1", Some(2), 3));
+            v.push(it("pipe_partial", "pool=1,d=3,r=1,sinpoll=1", Some(1), 2));
             v.push(it("pipe_steal", "pool=1", Some(2), 3));
             v.push(it("pipe_steal", "pool=2", Some(1), 2));
             v.push(it("pipe_out", "pool=1,n=4,d=3,pat=2", None, 2));
@@ -647,6 +654,8 @@ fn plan_base(prop: &str) -> Vec<Item> {
                 for pool in [1, 2] {
                     v.push(it("pipe_drop_output", &format!("pool={},mode={}", pool, mode), Some(if pool == 1 { 2 } else { 1 }), if pool == 1 { 3 } else { 2 }));
                 }
+                // ... with an input that yields cooperatively (wakes itself from inside poll_next) once
+                v.push(it("pipe_drop_output", &format!("pool=1,mode={},sinpoll=1", mode), Some(1), 2));
             }
         }
         "C17" => {
